@@ -760,10 +760,22 @@ func (p *Peer) retryDoc(ctx context.Context, peerIDString string, docID string) 
 		if err != nil {
 			return err
 		}
+		// the receiver looks the collection up by its CollectionID, which is the version ID of the
+		// block's schema version for documents written under the first version only
+		versionID := head.block.Delta.GetSchemaVersionID()
+		cols, err := clientTxn.GetCollections(ctx, client.CollectionFetchOptions{
+			VersionID: immutable.Some(versionID),
+		})
+		if err != nil {
+			return err
+		}
+		if len(cols) == 0 {
+			return client.NewErrCollectionNotFoundForCollectionVersion(versionID)
+		}
 		updateEvent := event.Update{
 			DocID:        docID,
 			Cid:          head.cid,
-			CollectionID: head.block.Delta.GetSchemaVersionID(),
+			CollectionID: cols[0].Version().CollectionID,
 			Block:        rawblock,
 			IsRetry:      true,
 		}
